@@ -102,6 +102,18 @@ class SymSeconds:
     def __index__(self):
         raise TypeError("'float' object cannot be interpreted as an integer")
 
+    def __add__(self, n):
+        if isinstance(n, int):
+            return SymSeconds(self.sec + n, self.us)
+        _unsupported('timestamp + %s' % type(n).__name__)
+
+    __radd__ = __add__
+
+    def __sub__(self, n):
+        if isinstance(n, int):
+            return SymSeconds(self.sec - n, self.us)
+        _unsupported('timestamp - %s' % type(n).__name__)
+
     def __floordiv__(self, other):
         if other == 1:
             return self.sec
@@ -188,6 +200,29 @@ class SymRatio:
     def __round__(self, nd=None): return round(self._real(), nd) if nd is not None else round(self._real())
 
 
+class SymST:
+    """time.struct_time stand-in carrying only `wall` = seconds since 1970-01-01T00:00 of the
+    broken-down reading.  isinstance(x, time.struct_time) is true under CrossHair's type() patch;
+    calendar.timegm / time.mktime are patched to accept it; field access is not modelled."""
+
+    def __init__(self, wall):
+        self.wall = wall
+
+    def __ch_pytype__(self):
+        return time.struct_time
+
+    def __getattr__(self, name):
+        if name.startswith('tm_'):
+            _unsupported('struct_time.' + name)
+        raise AttributeError(name)
+
+    def __getitem__(self, i):
+        _unsupported('struct_time[i]')
+
+    def __iter__(self):
+        _unsupported('iter(struct_time)')
+
+
 class SymDT(datetime.datetime):
     def __new__(cls, wall, us, off, lazy_ts=None):
         from crosshair.tracers import NoTracing
@@ -268,10 +303,11 @@ class SymDT(datetime.datetime):
         _unsupported('astimezone(%r)' % (tz,))
 
     def timetuple(self):
-        _unsupported('timetuple')
+        # broken-down wall-clock reading; the utc offset is NOT part of a struct_time
+        return SymST(self._wall)
 
     def utctimetuple(self):
-        _unsupported('utctimetuple')
+        return SymST(self._wall if self._off is None else self._wall - self._off)
 
     def __eq__(self, other):
         if not isinstance(other, SymDT):
@@ -385,8 +421,22 @@ _real_mktime = time.mktime
 _real_timegm = calendar.timegm
 
 
+def _is_symst(st):
+    from crosshair.tracers import NoTracing
+    with NoTracing():
+        return type(st) is SymST
+
+
 def _mktime(st):
-    return float(_real_timegm(st) - ENV[0].offset())
+    if _is_symst(st):
+        return SymSeconds(st.wall - ENV[0].offset(), 0)
+    return SymSeconds(_real_timegm(st) - ENV[0].offset(), 0)
+
+
+def _timegm(st):
+    if _is_symst(st):
+        return st.wall
+    return _real_timegm(st)
 
 
 def install():
@@ -396,3 +446,4 @@ def install():
     reg[datetime.datetime.fromtimestamp] = _fromtimestamp
     reg[datetime.datetime.utcfromtimestamp] = _utcfromtimestamp
     reg[time.mktime] = _mktime
+    reg[calendar.timegm] = _timegm
